@@ -22,10 +22,11 @@ RULE = ('case = (stateful subclass of one of the six worker classes, init_state 
 ASSUMPTIONS = ['thread kinds are excluded from the alive-phase read (documented as unspecified)', 'values are compared with ==']
 SHRINK = 'none'
 TIME_BUDGET = {'quick': 170, 'thorough': 1700}
-REQUIRED = {'quick': {'ending:terminate': 60, 'ending:raise': 60, 'chain>1': 80, 'paused_read': 40, 'first_read:user_state': 100, 'restart': 20},
+REQUIRED = {'quick': {'ending:terminate': 60, 'ending:raise': 60, 'chain>1': 80, 'paused_read': 40, 'first_read:user_state': 100, 'restart': 20, 'inplace_mutation': 60, 'death_observed_without_worker_api': 8},
             'thorough': {'ending:terminate': 600, 'ending:raise': 600, 'chain>1': 800, 'paused_read': 400}}
 
 _VALS = ['none', 'zero', 'str', 'list', 'dict', 'point', 5, 6, 7]
+_ASSIGN = _VALS + ['inplace', 'inplace', 'list', 'dict']
 
 
 def examples(tier):
@@ -38,7 +39,8 @@ def shards(tier):
 
 def strategy(tier):
     inc = st.fixed_dictionaries({
-        'values': st.lists(st.sampled_from(_VALS), max_size=10),
+        'values': st.lists(st.sampled_from(_ASSIGN), max_size=10),
+        'nowait': st.booleans(),
         'ending': st.sampled_from(['return', 'return', 'raise', 'terminate']),
         'n_raw': st.integers(0, 500),
         'pause': st.booleans(),
@@ -51,6 +53,18 @@ def strategy(tier):
         'use_restart': st.booleans(),
         'assign_from_parent': st.sampled_from(['alive', 'dead', 'norun', 'never']),
     })
+
+
+def _apply(state, v):
+    import copy
+    if v == 'inplace':
+        s2 = copy.deepcopy(state)
+        if isinstance(s2, list):
+            s2.append(9)
+        elif isinstance(s2, dict):
+            s2['m'] = 9
+        return s2
+    return vworkers.mkval(v)
 
 
 def _eq(a, b):
@@ -113,7 +127,8 @@ def run_case(case, ctx):
                         mode = 'pause'
             if mode != 'none':
                 inject.arm(name, mode, n)
-            kw = {'name': name, 'init_state': state}
+            import copy
+            kw = {'name': name, 'init_state': copy.deepcopy(state)}      # thread workers share memory: never hand them the model's own object
             if kind.endswith('remote'):
                 kw['host'] = IC.server(ctx).addr
             restarted = False
@@ -180,6 +195,15 @@ def run_case(case, ctx):
                     out.viol('terminate_blocked', kind, '')
                 except Exception as e:
                     step['terminate_exc'] = type(e).__name__
+            elif inc.get('nowait') and kind == 'process' and mode == 'none':
+                # the child's end is observed through the process table only: no call on the worker touches its bookkeeping
+                from core import pid_alive
+                t_end = time.monotonic() + 15
+                while pid_alive(w.pid) and time.monotonic() < t_end:
+                    time.sleep(0.005)
+                time.sleep(0.02)
+                out.label('death_observed_without_worker_api')
+                nowait = True
             else:
                 try:
                     if not bounded(w.wait, 25, 10):
@@ -191,13 +215,14 @@ def run_case(case, ctx):
             delivered = bool(inject.delivered(name, 0.5)) if mode == 'terminate' and reached else False
             if mode != 'none':
                 inject.cleanup(name)
-            try:
-                dead = not w.is_alive()
-            except Exception:
-                dead = False
-            if not dead:
-                out.excluded = 'worker not dead after the ending'
-                return out
+            if not (inc.get('nowait') and kind == 'process' and mode == 'none'):
+                try:
+                    dead = not w.is_alive()
+                except Exception:
+                    dead = False
+                if not dead:
+                    out.excluded = 'worker not dead after the ending'
+                    return out
             # ---- dead phase: reads in the generated order
             obs = {}
             for what in inc['reads']:
@@ -207,7 +232,11 @@ def run_case(case, ctx):
                     obs[what] = ('RAISED', type(e).__name__)
             out.label('first_read:' + inc['reads'][0])
             us = obs['user_state']
-            cands = [state] + [vworkers.mkval(v) for v in values]
+            cands = [state]
+            for v in values:
+                cands.append(_apply(cands[-1], v))
+            if 'inplace' in values:
+                out.label('inplace_mutation')
             if ending in ('return', 'raise') or not delivered:
                 # the child ran to its own end (or the terminate request came too late): every assignment was made ... unless terminate
                 # was requested and landed somewhere we do not know
@@ -219,6 +248,8 @@ def run_case(case, ctx):
                 ok = any(_eq(us, c_) for c_ in cands)
             reported = not (obs.get('has_error') is True and obs.get('error', 1) is None)
             site = f'{kind}:{ending}:first_read={inc["reads"][0]}'
+            if inc.get('nowait') and kind == 'process' and mode == 'none':
+                site += ':no_wait'
             if not ok and w.error is None and w.has_error:
                 # no report reached the parent (has_error True, error None): the property only speaks about endings that let the child report
                 out.label('no_report')
@@ -250,7 +281,7 @@ def run_case(case, ctx):
                 nontrivial = True
             step.update({'user_state': repr(us)[:40], 'delivered': delivered, 'seen': res[1] if isinstance(res, tuple) and len(res) == 2 else None})
             out.obs['steps'].append(step)
-            state = us if ok else cands[-1]
+            state = copy.deepcopy(us if ok else cands[-1])
             if not ok:
                 break
     finally:
